@@ -127,7 +127,7 @@ def build(ctx):
     g.trace('tr_PlanePN', [('p', V3), ('n', V3)], lambda p, n: Plane.PN(p, n).plane)
     g.trace('tr_Plane_contains_res', [('a', V4), ('x', V3)],
             lambda a, x: _rel_sides(Plane(a).contains(x), 'Plane.contains', ctx),
-            num_fn=lambda a, x: abs(np.dot(Plane(a).n, x) - Plane(a).d))
+            num_fn=lambda a, x: abs(np.dot(Plane(a).n, x) + Plane(a).d))
     # ---- accessors
     g.trace('tr_pp', [('L', V6)], lambda L: PL(L).pp)
     g.trace('tr_ppd', [('L', V6)], lambda L: PL(L).ppd)
@@ -438,7 +438,22 @@ class Oracle:
         self.close('plane-PN:equation', np.array(pl.n, float) @ p0 + pl.d, 0.0, nrm(n) * S, rp, "Plane.PN(p, n): n.p + d != 0")
         okc, r = self.call('plane-contains', lambda: bool(pl.contains(p0, tol=REL * nrm(n) * S)), rp)
         if okc:
-            self.ok('plane-contains:defining-point', r, "Plane.PN(p, n).contains(p) is False: contains() tests |n.x - d| but the plane is n.x + d = 0", rp)
+            self.ok('plane-contains:defining-point', r, "Plane.PN(p, n).contains(p) is False for the point the plane was built from (plane equation n.x + d = 0)", rp)
+        # other points of the plane are contained, points off the plane (1e-3 relative, either side; the mirror image of p) are not
+        t1 = np.cross(n, rand_unit(rng) + 1e-3)
+        inpl = p0 + t1 / nrm(t1) * S * rng.uniform(0.1, 2)
+        okc, r = self.call('plane-contains', lambda: bool(pl.contains(inpl, tol=REL * nrm(n) * S * 10)), rp)
+        if okc:
+            self.ok('plane-contains:in-plane-point', r, "Plane.PN(p, n).contains(x) is False for a point x with n.(x - p) = 0", dict(rp, x=inpl.tolist()))
+        for sgn in (1.0, -1.0):
+            offp = inpl + sgn * n / nrm(n) * S * 1e-3
+            okc, r = self.call('plane-contains', lambda: bool(pl.contains(offp, tol=REL * nrm(n) * S * 10)) or bool(pl.contains(offp)), rp)
+            if okc:
+                self.ok('plane-contains:off-plane-point', not r, "Plane.PN(p, n).contains(x) is True for a point 1e-3 (relative) off the plane", dict(rp, x=offp.tolist()))
+        if abs(n @ p0) > 1e-3 * nrm(n) * S:
+            okc, r = self.call('plane-contains', lambda: bool(pl.contains(-p0, tol=REL * nrm(n) * S)), rp)
+            if okc:
+                self.ok('plane-contains:mirror-point', not r, "Plane.PN(p, n).contains(-p) is True although n.p != 0 (sign of d reversed)", rp)
         # three points
         a, b = np.cross(n, rand_unit(rng) + 1e-3), None
         a = a / nrm(a)
@@ -506,7 +521,7 @@ def oracle(ctx):
     O.pair('general', A(0, 0, 0), A(1, 0, 0), A(0, 0, 1), A(3, 4, 0))                  # C19_commonperp_constraint_refuted
     O.pair('general', A(0, 0, 0), A(1, 0, 0), A(0, 0, 1), A(0.6, 0.8, 0))              # C19_distance_refuted
     O.plane(A(2, 0, 0), A(1, 0, 0), A(0, 0, 0), A(1, 0, 0), rng)                       # C19_intersect_plane_lam_refuted
-    O.plane(A(1, 0, 0), A(1, 0, 0), A(0, 1, 0), A(1, 1, 0), rng)                       # C19_Plane_contains_defining_point_refuted
+    O.plane(A(1, 0, 0), A(1, 0, 0), A(0, 1, 0), A(1, 1, 0), rng)                       # witness of the former C19_Plane_contains_defining_point_refuted (repaired: must stay silent)
     N = ctx.n(250, 40000)
     for i in range(N):
         # ---- one line
